@@ -292,6 +292,15 @@ class SimDatagramTransport(asyncio.DatagramTransport):
         """Schedule a datagram from addr=(ip, port) to arrive after `delay` seconds."""
         self.net.loop.at(quantize(self.net.loop.time() + delay), self._deliver, bytes(data), addr)
 
+    def inject_error(self, exc, delay):
+        """A socket-level error reported to the protocol (ICMP unreachable, ENOBUFS ...): error_received(exc)."""
+        def _err():
+            if not self._closing:
+                self.net.trace("udp-err", self.eid, type(exc).__name__)
+                self.net.stats["udp_error_received"] += 1
+                self.protocol.error_received(exc)
+        self.net.loop.at(quantize(self.net.loop.time() + delay), _err)
+
     def _deliver(self, data, addr):
         if self._closing:
             self.net.stats["udp_late_dropped"] += 1
